@@ -1139,7 +1139,7 @@ impl DefaultFunction {
                 let d1 = args[0].unwrap_data()?;
                 let d2 = args[1].unwrap_data()?;
 
-                let value = Value::bool(d1.eq(d2));
+                let value = Value::bool(equals_data(d1, d2));
 
                 Ok(value)
             }
@@ -2043,6 +2043,35 @@ impl DefaultFunction {
                 Ok(value)
             }
         }
+    }
+}
+
+/// Equality of `Data` with integers compared by value: pallas' own comparison of
+/// big integers confuses the biased (`BigNInt`) and unbiased (`Int`) encodings.
+fn equals_data(left: &PlutusData, right: &PlutusData) -> bool {
+    fn all_equal(xs: &[PlutusData], ys: &[PlutusData]) -> bool {
+        xs.len() == ys.len() && xs.iter().zip(ys).all(|(x, y)| equals_data(x, y))
+    }
+
+    match (left, right) {
+        (PlutusData::BigInt(x), PlutusData::BigInt(y)) => {
+            from_pallas_bigint(x) == from_pallas_bigint(y)
+        }
+        (PlutusData::BoundedBytes(x), PlutusData::BoundedBytes(y)) => x == y,
+        (PlutusData::Array(xs), PlutusData::Array(ys)) => all_equal(xs, ys),
+        (PlutusData::Map(xs), PlutusData::Map(ys)) => {
+            xs.len() == ys.len()
+                && xs
+                    .iter()
+                    .zip(ys.iter())
+                    .all(|((k1, v1), (k2, v2))| equals_data(k1, k2) && equals_data(v1, v2))
+        }
+        (PlutusData::Constr(x), PlutusData::Constr(y)) => {
+            convert_tag_to_constr(x.tag).or(x.any_constructor)
+                == convert_tag_to_constr(y.tag).or(y.any_constructor)
+                && all_equal(&x.fields, &y.fields)
+        }
+        _ => false,
     }
 }
 
